@@ -294,6 +294,13 @@ func c20Shapes(tier string) []c20Shape {
 			}
 		}},
 		{"zero-value-bank-send", func(o, x string) sdk.Msg { return &banktypes.MsgSend{} }},
+		// registered messages of the newer style, WITHOUT the legacy Route/Type/GetSignBytes methods
+		{"bank-update-params-(no-legacy-methods)", func(o, x string) sdk.Msg {
+			return &banktypes.MsgUpdateParams{Authority: o, Params: banktypes.Params{DefaultSendEnabled: true}}
+		}},
+		{"bank-set-send-enabled-(no-legacy-methods)", func(o, x string) sdk.Msg {
+			return &banktypes.MsgSetSendEnabled{Authority: o, SendEnabled: []*banktypes.SendEnabled{{Denom: "uregen", Enabled: false}}, UseDefaultFor: []string{"stake"}}
+		}},
 		{"zero-value-ecocredit-create-batch", func(o, x string) sdk.Msg { return &basetypes.MsgCreateBatch{} }},
 		{"bank-send-from-another-owner", func(o, x string) sdk.Msg { return c20BankSend(x, o, coin("uregen", 99)) }},
 		{"intertx-submit-tx-of-another-owner-nested", func(o, x string) sdk.Msg {
